@@ -7,7 +7,7 @@ TRUSTED_E2 = ["antlr4 4.7.2 Python runtime implements the ATN's language with lo
               "error listeners (validated on every run against the regex model, not proved)", "z3 5.1.0 sequence/regex theory",
               "my reading of cmake-language(7) as regular expressions (lib/e2.py: Reference)"]
 STEP_ASSUME = ["well-formedness = the properties' quantifier: block closers only with a matching open block; a member/test declaration is immediately "
-               "followed by its (undocumented) implementing definition; member commands only inside a class; closers and cmake_parse_arguments carry no doccomment",
+               "followed by its implementing definition (which may carry a doccomment of its own); member commands only inside a class; closers and cmake_parse_arguments carry no doccomment",
                "argument texts contain no separators/quotes (what an Identifier/Unquoted token can be); token types are not read by the aggregator",
                "lexer and parser are bypassed by the tree builder (real CMakeParser.*Context objects, real ParseTreeWalker); their behaviour is engine E2's subject"]
 
@@ -29,7 +29,7 @@ META = {
               "one shard per command kind incl. every name the by-name dispatch can find and a symbolic command name. Plus bounded whole sequences from the initial state "
               "rendered to a page == delta folded + spec_render, generic invocations with parenthesised groups, and z3 lemmas on the parser/lexer ATNs "
               "(doccomment not followed by a command is only a bracket_doccomment; comments are skipped whatever they contain).",
-  assumptions=STEP_ASSUME + ["an implementing definition that itself carries a doccomment is scoped out (the property text is ambiguous there)"],
+  assumptions=STEP_ASSUME,
   outside=["which alternative the ANTLR runtime picks for 'Docstring Identifier (' (lowest alternative = documented_command) is trusted"],
   trusted=TRUSTED_CH + TRUSTED_E2),
  "C03": dict(
